@@ -82,7 +82,7 @@ def check_bond_writers(ctx, rule, prog):
         for node in walk_no_nested(fn):
             site = None
             if isinstance(node, ast.Call) and last_attr(node) in (
-                    'append', 'remove', 'extend', 'insert', 'pop', 'clear', 'sort', 'reverse') \
+                    'append', 'remove', 'extend', 'insert', 'pop', 'clear') \
                     and isinstance(node.func.value, ast.Attribute) \
                     and node.func.value.attr == 'bonded_atoms':
                 site = ('call:' + node.func.attr, norm(node.func.value.value),
